@@ -45,9 +45,12 @@ def project(results):
 
 def expression_plan(expr, ev, text_tag="", set_text=None):
     """Seq[ resolve packages, (Set(text)), evaluate the AHB expression ]"""
-    from ahbicht.expressions.ahb_expression_parser import parse_ahb_expression_to_single_requirement_indicator_expressions
-    from ahbicht.expressions.expression_resolver import AhbExpressionResolverTransformer, parse_expression_including_unresolved_subexpressions
-    unresolved = AhbExpressionResolverTransformer().transform(parse_ahb_expression_to_single_requirement_indicator_expressions(expr))
+    from ahbicht.expressions.expression_resolver import parse_expression_including_unresolved_subexpressions
+
+    async def parse_unresolved():          # public API only: the tree before package expansion (no awaitable is involved without packages)
+        return await parse_expression_including_unresolved_subexpressions(expr, resolve_packages=False, replace_time_conditions=False)
+
+    unresolved = _auto(parse_unresolved, ev)
 
     async def parse():
         return await parse_expression_including_unresolved_subexpressions(expr, resolve_packages=True)
